@@ -140,12 +140,62 @@ def run(ctx):
             seen.add(key)
             reported += 1
             ctx.violation('independent dissector: ' + bad[0], '=== replay\n' + '\n'.join(lines) + '\n--- problems\n' + '\n'.join(bad) + '\n--- C++ output\n' + '\n'.join(lh[-2:]) + '\n')
+    # (3) IPv6 extension-header chains: the next-header values are derived on serialisation and must name the headers that follow
+    import struct as _st
+
+    def chain_of(b):
+        nh, off, out = b[6], 40, []
+        while nh in (0, 43, 60) and off + 8 <= len(b):
+            out.append(nh)
+            nh, off = b[off], off + 8 * (b[off + 1] + 1)
+        return out + [nh], off
+
+    xs = []
+    for i in range(150 if quick else 3000):
+        k = rng.choice([1, 2, 2, 3, 3])
+        types = [rng.choice([0, 43, 60]) for _ in range(k)]
+        if 0 in types:
+            types = [0] + [t for t in types if t != 0][:k - 1]          # hop-by-hop goes first
+        l4p = rng.choice([17, 6])
+        pl = bytes(rng.randrange(256) for _ in range(rng.choice([0, 1, 8, 33])))
+        src, dst = bytes(rng.randrange(256) for _ in range(16)), bytes(rng.randrange(256) for _ in range(16))
+        l4 = (_st.pack('>HHHH', 1234, 53, 8 + len(pl), 0) + pl) if l4p == 17 else (_st.pack('>HHIIBBHHH', 1234, 80, 1, 2, 0x50, 0x18, 100, 0, 0) + pl)
+        ck = 0xffff - D.csum16(src + dst + _st.pack('>IHBB', len(l4), 0, 0, l4p) + l4)
+        ck = ck or 0xffff
+        l4 = l4[:6] + _st.pack('>H', ck) + l4[8:] if l4p == 17 else l4[:16] + _st.pack('>H', ck) + l4[18:]
+        ext = b''
+        for j, t in enumerate(types):
+            nxt = types[j + 1] if j + 1 < len(types) else l4p
+            n8 = rng.choice([0, 0, 1])
+            body = bytes([1, 6 + 8 * n8 - 2]) + bytes(6 + 8 * n8 - 2) if t != 43 else bytes([0, 0]) + bytes(4 + 8 * n8)
+            ext += bytes([nxt, n8]) + body[:6 + 8 * n8]
+        b = _st.pack('>IHBB', 6 << 28, len(ext) + len(l4), types[0], 64) + src + dst + ext + l4
+        xs.append(('x%d' % i, ['parse IPv6 x' + b.hex(), 'ser'], b, types + [l4p]))
+    xh = C.run_harness('h_pkt', [(sid, lines) for sid, lines, _, _ in xs])
+    ctx.cov['evaluations'] += len(xs)
+    for sid, lines, b, want in xs:
+        lh = [l for l in xh.get(sid, []) if not l.startswith('!~')]
+        if not lh or not lh[0].startswith('P ') or not lh[-1].startswith('S '):
+            bad = 'IPv6 packet with extension headers %s: %s' % (want[:-1], (lh[-1] if lh else '<none>')[:80])
+        else:
+            y = bytes.fromhex(lh[-1].split()[2][1:])
+            got, off = chain_of(y)
+            bad = None
+            if got != want:
+                bad = 'IPv6 next-header chain on the wire is %s, the packet that was parsed had %s' % (got, want)
+            elif D.csum16(y[8:40] + _st.pack('>IHBB', len(y) - off, 0, 0, got[-1]) + y[off:]) != 0xffff:
+                bad = 'transport checksum behind IPv6 extension headers %s does not verify' % want[:-1]
+            else:
+                nontriv.add(tuple(lines))
+        if bad and reported < 6 and bad[:40] not in seen:
+            seen.add(bad[:40]); reported += 1
+            ctx.violation('independent dissector: ' + bad, '=== replay\n' + '\n'.join(lines) + '\n--- ' + bad + '\n--- C++ output\n' + '\n'.join(l[:300] for l in lh[-2:]) + '\n')
     ctx.cov['distinct_nontrivial'] = len(nontriv)
     ctx.cov['traces_validated_against_impl'] = len(sums)
     ctx.cov['rule'] = ('(1) byte strings aimed at the folding boundaries (all-ones, alternating, odd lengths) through Utils::sum_range / crc32 against the model and independent references; '
                        '(2) packets built through the public API over EthernetII/802.1Q/SLL/Loopback x IPv4/IPv6 x TCP/UDP/ICMP/ICMPv6 with random field values, TCP options and payloads '
                        '(sizes around the 60-byte minimum, payloads driving sums to 0xffff), dissected by an independent dissector: lengths, offsets, next-protocol tags, padding, checksums, '
-                       'and the values that were set; non-trivial = distinct packet with >= 3 dissected layers')
+                       'and the values that were set; (3) parsed IPv6 packets with 1-3 extension headers (hop-by-hop, routing, destination options) in front of UDP/TCP: next-header chain and checksum after serialize(); non-trivial = distinct packet with >= 3 dissected layers')
     ctx.cov['samples'] = [scripts[0][1], scripts[1][1]]
     C.obligations_failed(ctx, ok and st['gen_tables'].get('ok', False), why, 'theorems of Properties/C05.v / generated crc table no longer check')
 
